@@ -492,3 +492,37 @@ def encode_stream(st):
                     ctl(ws, 'EOC')
                 emit(ws, cap['gap'])
     return lines, rows_sent
+
+
+# ------------------------------------------------------------------------------- reader reuse
+
+def prior_doc(rng, drop=None):
+    """What a reader object may have read before the document a case is about (a reader that was used before
+    must behave as a fresh one): a small pop-on program, a roll-up / paint-on stream, or a stream with an
+    over-long row (that read is refused).  `drop` chooses the timecode separator."""
+    k = rng.random()
+    if k < 0.5:
+        prog = gen_popon(rng, ncaps=rng.randrange(1, 3))
+        if drop is not None:
+            prog['drop'] = drop
+        lines, _ = encode_popon(prog)
+    else:
+        st = gen_stream(rng, modes=rng.choice([['roll'], ['paint'], ['pop']]),
+                        lengths=[5, 20, 31, 40] if k < 0.8 else None)
+        if drop is not None:
+            st['drop'] = drop
+        lines, _ = encode_stream(st)
+    return scc_doc(lines)
+
+
+def reader_for(case, ctx):
+    """A fresh SCCReader, or - when the case has a 'prior_doc' - one that has read that document before."""
+    from pycaption import SCCReader
+    reader = SCCReader()
+    if case.get('prior_doc'):
+        try:
+            reader.read(case['prior_doc'])
+            ctx.count('reads_by_a_reader_object_used_before')
+        except Exception:
+            ctx.count('reads_by_a_reader_object_whose_previous_read_was_refused')
+    return reader
